@@ -145,18 +145,285 @@ def hand_written(cls, attr):
     return "_MODULE_SOURCE_CODE" not in g
 
 
+# {{{ hand-written __eq__ / __hash__ (Polynomial, Rational): read from their source
+
+def definer(cls, attr):
+    """the class in the MRO in whose __dict__ the effective `attr` lives"""
+    for c in cls.__mro__:
+        if attr in c.__dict__:
+            return c
+    return None
+
+
+def _method_asts(cls):
+    """{name: ast.FunctionDef} of the methods written in the body of `cls`"""
+    import inspect
+    import textwrap
+    try:
+        src = textwrap.dedent(inspect.getsource(cls))
+    except (OSError, TypeError) as ex:
+        raise ExtractError(f"{cls.__name__}: source not available: {ex}") from None
+    mod = ast.parse(src)
+    if len(mod.body) != 1 or not isinstance(mod.body[0], ast.ClassDef):
+        raise ExtractError(f"{cls.__name__}: source is not one class definition")
+    return {n.name: n for n in mod.body[0].body if isinstance(n, ast.FunctionDef)}
+
+
+def _body(fn):
+    """statements of a function without a leading docstring"""
+    b = list(fn.body)
+    if b and isinstance(b[0], ast.Expr) and isinstance(b[0].value, ast.Constant) \
+            and isinstance(b[0].value.value, str):
+        b = b[1:]
+    return b
+
+
+def _args_are(fn, names, what):
+    a = fn.args
+    got = [x.arg for x in a.args]
+    if got != names or a.vararg or a.kwarg or a.kwonlyargs or a.posonlyargs or a.defaults:
+        raise ExtractError(f"{what}: signature is not ({', '.join(names)})")
+
+
+def _is_isinstance(node, obj, clsname):
+    return (isinstance(node, ast.Call) and isinstance(node.func, ast.Name)
+            and node.func.id == "isinstance" and len(node.args) == 2 and not node.keywords
+            and isinstance(node.args[0], ast.Name) and node.args[0].id == obj
+            and isinstance(node.args[1], ast.Name) and node.args[1].id == clsname)
+
+
+def _attr_conjuncts(nodes, what):
+    """[`self.A == other.A`, …] -> [A, …]"""
+    out = []
+    for c in nodes:
+        if not (isinstance(c, ast.Compare) and len(c.ops) == 1 and isinstance(c.ops[0], ast.Eq)
+                and _is_attr(c.left, "self") and _is_attr(c.comparators[0], "other")
+                and c.left.attr == c.comparators[0].attr):
+            raise ExtractError(f"{what}: conjunct is not self.A == other.A: {ast.unparse(c)}")
+        out.append(c.left.attr)
+    if not out:
+        raise ExtractError(f"{what}: compares no attribute")
+    return out
+
+
+def read_own_eq(fn, clsname):
+    """-> (shape, eqAttrs, isinstance tested?, coerces?)"""
+    what = f"{clsname}.__eq__"
+    _args_are(fn, ["self", "other"], what)
+    b = _body(fn)
+    if len(b) == 1 and isinstance(b[0], ast.Return):
+        v = b[0].value
+        if not (isinstance(v, ast.BoolOp) and isinstance(v.op, ast.And) and len(v.values) >= 2
+                and _is_isinstance(v.values[0], "other", clsname)):
+            raise ExtractError(f"{what}: not `return isinstance(other, {clsname}) and …`")
+        return "polynomial", _attr_conjuncts(v.values[1:], what), True, False
+    if len(b) == 2 and isinstance(b[0], ast.If) and isinstance(b[1], ast.Return):
+        t = b[0].test
+        coerce = b[0].body
+        ok = (isinstance(t, ast.UnaryOp) and isinstance(t.op, ast.Not)
+              and _is_isinstance(t.operand, "other", clsname) and not b[0].orelse
+              and len(coerce) == 1 and isinstance(coerce[0], ast.Assign)
+              and ast.unparse(coerce[0]) == f"other = {clsname}(other)")
+        if not ok:
+            raise ExtractError(f"{what}: not `if not isinstance(other, {clsname}): other = {clsname}(other)`")
+        v = b[1].value
+        conj = v.values if isinstance(v, ast.BoolOp) and isinstance(v.op, ast.And) else [v]
+        return "rational", _attr_conjuncts(conj, what), True, True
+    raise ExtractError(f"{what}: unrecognised shape: {ast.unparse(fn)[:200]}")
+
+
+def _tagged_tuple(node, what):
+    """`hash((type(self).__name__, self.A, …))` -> [A, …]"""
+    if not (isinstance(node, ast.Call) and isinstance(node.func, ast.Name) and node.func.id == "hash"
+            and len(node.args) == 1 and isinstance(node.args[0], ast.Tuple) and node.args[0].elts
+            and ast.unparse(node.args[0].elts[0]) == "type(self).__name__"):
+        raise ExtractError(f"{what}: not hash((type(self).__name__, self.A, …))")
+    return _self_tuple(ast.Tuple(elts=node.args[0].elts[1:], ctx=ast.Load()), what)
+
+
+def read_own_hash(fn, clsname, shape):
+    """-> (hashAttrs, unit attribute or None, unit value attribute or None)"""
+    what = f"{clsname}.__hash__"
+    _args_are(fn, ["self"], what)
+    b = _body(fn)
+    if shape == "polynomial":
+        if not (len(b) == 1 and isinstance(b[0], ast.Return)):
+            raise ExtractError(f"{what}: not a single return")
+        return _tagged_tuple(b[0].value, what), None, None
+    if not (len(b) == 2 and isinstance(b[0], ast.If) and isinstance(b[1], ast.Return)):
+        raise ExtractError(f"{what}: not `if …: return …` followed by a return")
+    t = b[0].test
+    ok = (isinstance(t, ast.Compare) and len(t.ops) == 1 and isinstance(t.ops[0], ast.Eq)
+          and _is_attr(t.left, "self") and isinstance(t.comparators[0], ast.Constant)
+          and t.comparators[0].value == 1 and type(t.comparators[0].value) is int
+          and not b[0].orelse and len(b[0].body) == 1 and isinstance(b[0].body[0], ast.Return))
+    r = b[0].body[0].value if ok else None
+    ok = ok and (isinstance(r, ast.Call) and isinstance(r.func, ast.Name) and r.func.id == "hash"
+                 and len(r.args) == 1 and _is_attr(r.args[0], "self"))
+    if not ok:
+        raise ExtractError(f"{what}: not `if self.D == 1: return hash(self.N)`")
+    return _tagged_tuple(b[1].value, what), t.left.attr, r.args[0].attr
+
+
+def ne_is_not_eq(cls):
+    """the effective `__ne__` is `return not self.__eq__(other)`"""
+    d = definer(cls, "__ne__")
+    if d is None or d is object:
+        return False
+    fn = _method_asts(d).get("__ne__")
+    if fn is None:
+        return False
+    b = _body(fn)
+    return len(b) == 1 and ast.unparse(b[0]) == "return not self.__eq__(other)"
+
+
+_EXPECTED_INIT = {
+    "rational": """
+def __init__(self, numerator, denominator=1):
+    d_unit = traits.traits(denominator).get_unit(denominator)
+    numerator /= d_unit
+    denominator /= d_unit
+    self.Numerator = numerator
+    self.Denominator = denominator
+""",
+    "polynomial": """
+def __init__(self, base, data=None, unit=1, var_less=None):
+    if var_less is None:
+        var_less = LexicalMonomialOrder()
+
+    self.Base = base
+    self.Unit = unit
+    self.VarLess = var_less
+
+    if data is None:
+        self.Data = ((1, unit),)
+    else:
+        self.Data = tuple(data)
+""",
+}
+
+_EXPECTED_HELPERS = {
+    # what the rational constructor relies on: the unit of an integer is its sign, floats have no
+    # unit, non-numbers have no traits
+    ("pymbolic.traits", "traits"): """
+def traits(x):
+    try:
+        return x.traits()
+    except AttributeError:
+        if isinstance(x, (complex, float)):
+            return FieldTraits()
+        elif isinstance(x, int):
+            return IntegerTraits()
+        else:
+            raise NoTraitsError from None
+""",
+    ("pymbolic.traits", "IntegerTraits.get_unit"): """
+@staticmethod
+def get_unit(x):
+    if x < 0:
+        return -1
+    elif x > 0:
+        return 1
+    else:
+        raise RuntimeError("0 does not have a prime factor decomposition")
+""",
+}
+
+
+def _same_function(fn_ast, expected_src):
+    want = ast.parse(expected_src.strip()).body[0]
+    got = ast.FunctionDef(name=fn_ast.name, args=fn_ast.args, body=_body(fn_ast),
+                          decorator_list=fn_ast.decorator_list, returns=None, type_comment=None,
+                          type_params=[])
+    want = ast.FunctionDef(name=want.name, args=want.args, body=_body(want),
+                           decorator_list=want.decorator_list, returns=None, type_comment=None,
+                           type_params=[])
+    return ast.dump(got) == ast.dump(want)
+
+
+def init_as_expected(cls, shape):
+    fn = _method_asts(cls).get("__init__")
+    if fn is None or not _same_function(fn, _EXPECTED_INIT[shape]):
+        return False
+    if shape == "rational":
+        import importlib
+        import inspect
+        import textwrap
+        for (modname, qual), src in _EXPECTED_HELPERS.items():
+            o = importlib.import_module(modname)
+            for part in qual.split("."):
+                o = getattr(o, part)
+            got = ast.parse(textwrap.dedent(inspect.getsource(o))).body[0]
+            if not _same_function(got, src):
+                return False
+        ft = importlib.import_module("pymbolic.traits").FieldTraits
+        if hasattr(ft, "get_unit"):
+            return False
+    return True
+
+
+def own_info_for(cls):
+    """record for a class that DEFINES a hand-written `__eq__`"""
+    name = cls.__name__
+    m = _method_asts(cls)
+    for need in ("__eq__", "__hash__", "__getinitargs__"):
+        if need not in m:
+            raise ExtractError(f"{name}: defines __eq__ by hand but not {need} in the same class")
+    shape, eq_attrs, isinst, coerces = read_own_eq(m["__eq__"], name)
+    hash_attrs, unit_attr, unit_value = read_own_hash(m["__hash__"], name, shape)
+    _args_are(m["__getinitargs__"], ["self"], f"{name}.__getinitargs__")
+    init_attrs = read_last_return_tuple(m["__getinitargs__"], f"{name}.__getinitargs__")
+    if len(_body(m["__getinitargs__"])) != 1:
+        raise ExtractError(f"{name}.__getinitargs__: not a single return")
+    return dict(name=name, shape=shape, initAttrs=init_attrs, eqAttrs=eq_attrs, eqIsinstance=isinst,
+                eqCoerces=coerces, hashTagged=True, hashAttrs=hash_attrs, hashUnitAttr=unit_attr,
+                hashUnitValue=unit_value, neIsNotEq=ne_is_not_eq(cls),
+                initAsExpected=init_as_expected(cls, shape))
+
+
+def own_table(classes):
+    """records of the definers of hand-written `__eq__`, and consistency of the rest of the table
+    with what the model assumes about `other / 1` (only the polynomial shape overrides division)"""
+    from pymbolic.primitives import Expression
+    definers = []
+    for cls in classes:
+        if hand_written(cls, "__eq__") or hand_written(cls, "__hash__"):
+            de, dh = definer(cls, "__eq__"), definer(cls, "__hash__")
+            if de is not dh:
+                raise ExtractError(f"{cls.__name__}: __eq__ comes from {de.__name__}, __hash__ from "
+                                   f"{dh.__name__}")
+            if getattr(cls, "__getinitargs__", None) is not de.__dict__.get("__getinitargs__"):
+                raise ExtractError(f"{cls.__name__}: __getinitargs__ is not the one of {de.__name__}")
+            if de not in definers:
+                definers.append(de)
+    owns = [own_info_for(d) for d in definers]
+    poly = tuple(d for d, o in zip(definers, owns) if o["shape"] == "polynomial")
+    for cls in classes:
+        if cls.__truediv__ is not Expression.__truediv__ and not issubclass(cls, poly or ()):
+            raise ExtractError(f"{cls.__name__}: overrides __truediv__ (the model of Rational's "
+                               f"coercion assumes `expr / 1 is expr`)")
+    return owns
+
+# }}}
+
+
 def info_for(cls):
     from harness import c01_classes as C
+    from pymbolic.primitives import Expression
     name = cls.__name__
     own = cls.__dict__
     base = C.decorated_base(cls)
     mm = getattr(cls, "mapper_method", None)
+    own_eq = hand_written(cls, "__eq__")
     rec = dict(name=name, module=cls.__module__, base=base.__name__ if base else "",
                fields=[], eqFields=[], eqClassChecked=False, hashFields=[], hashInstalled=False,
                getstateFields=[], setstateFields=[], initArgNames=[], getinitargsFields=[],
                frozen=False, mapperMethod=mm if isinstance(mm, str) else None,
-               hashable=cls.__hash__ is not None, ownEq=hand_written(cls, "__eq__"),
-               ownHash=hand_written(cls, "__hash__"))
+               hashable=cls.__hash__ is not None, ownEq=own_eq,
+               ownHash=hand_written(cls, "__hash__"),
+               ancestors=[c.__name__ for c in cls.__mro__[1:]
+                          if isinstance(c, type) and issubclass(c, Expression) and c is not Expression],
+               ownDefiner=definer(cls, "__eq__").__name__ if own_eq else "")
     if "_is_expr_dataclass" not in own:
         rec["kind"] = "sub" if base is not None else "legacy"
         rec["fields"] = list(C.field_names_of(cls))
@@ -209,6 +476,31 @@ def info_for(cls):
     return rec
 
 
+def read_frozen_source():
+    """the `frozen=` keyword of the `dataclass(…)` call inside `expr_dataclass`:
+    'debugFlag' (`__debug__`), 'always' (`True`), 'never' (`False` / absent)"""
+    import inspect
+    import textwrap
+
+    import pymbolic.primitives as prim
+    fn = ast.parse(textwrap.dedent(inspect.getsource(prim.expr_dataclass))).body[0]
+    calls = [n for n in ast.walk(fn)
+             if isinstance(n, ast.Call) and isinstance(n.func, ast.Name) and n.func.id == "dataclass"]
+    if len(calls) != 1:
+        raise ExtractError(f"expr_dataclass: expected one dataclass(…) call, found {len(calls)}")
+    kw = {k.arg: k.value for k in calls[0].keywords}
+    v = kw.get("frozen")
+    if v is None:
+        return "never"
+    if isinstance(v, ast.Name) and v.id == "__debug__":
+        return "debugFlag"
+    if isinstance(v, ast.Constant) and v.value is True:
+        return "always"
+    if isinstance(v, ast.Constant) and v.value is False:
+        return "never"
+    raise ExtractError(f"expr_dataclass: frozen={ast.unparse(v)} is none of __debug__ / True / False")
+
+
 def q(s):
     return '"' + s.replace("\\", "\\\\").replace('"', '\\"') + '"'
 
@@ -228,14 +520,30 @@ def to_lean(rec):
             "    hashFields := %s, hashInstalled := %s,\n"
             "    getstateFields := %s, setstateFields := %s,\n"
             "    initArgNames := %s, getinitargsFields := %s,\n"
-            "    frozen := %s, mapperMethod := %s, hashable := %s, ownEq := %s, ownHash := %s }") % (
+            "    frozen := %s, mapperMethod := %s, hashable := %s, ownEq := %s, ownHash := %s,\n"
+            "    ancestors := %s, ownDefiner := %s }") % (
         q(rec["name"]), q(rec["module"]), rec["kind"], q(rec["base"]),
         lean_list(rec["fields"]), lean_list(rec["eqFields"]), lean_bool(rec["eqClassChecked"]),
         lean_list(rec["hashFields"]), lean_bool(rec["hashInstalled"]),
         lean_list(rec["getstateFields"]), lean_list(rec["setstateFields"]),
         lean_list(rec["initArgNames"]), lean_list(rec["getinitargsFields"]),
         lean_bool(rec["frozen"]), mm, lean_bool(rec["hashable"]), lean_bool(rec["ownEq"]),
-        lean_bool(rec["ownHash"]))
+        lean_bool(rec["ownHash"]), lean_list(rec["ancestors"]), q(rec["ownDefiner"]))
+
+
+def lean_opt(s):
+    return "none" if s is None else f"some {q(s)}"
+
+
+def own_to_lean(o):
+    return ("  { name := %s, shape := .%s, initAttrs := %s,\n"
+            "    eqAttrs := %s, eqIsinstance := %s, eqCoerces := %s,\n"
+            "    hashTagged := %s, hashAttrs := %s, hashUnitAttr := %s, hashUnitValue := %s,\n"
+            "    neIsNotEq := %s, initAsExpected := %s }") % (
+        q(o["name"]), o["shape"], lean_list(o["initAttrs"]), lean_list(o["eqAttrs"]),
+        lean_bool(o["eqIsinstance"]), lean_bool(o["eqCoerces"]), lean_bool(o["hashTagged"]),
+        lean_list(o["hashAttrs"]), lean_opt(o["hashUnitAttr"]), lean_opt(o["hashUnitValue"]),
+        lean_bool(o["neIsNotEq"]), lean_bool(o["initAsExpected"]))
 
 
 def class_table():
@@ -244,17 +552,28 @@ def class_table():
 
 
 def extract_classes(ctx=None):
+    from harness import c01_classes as C
     recs = class_table()
+    owns = own_table(C.all_expression_classes())
+    frozen_src = read_frozen_source()
     text = ("import PV.Model.Classes\n"
             "/- GENERATED by extract/classes.py from the live classes of /repo — do not edit. -/\n"
             "namespace PV.Generated\n\n"
             "def classes : ClassTable := [\n" + ",\n".join(to_lean(r) for r in recs) + "\n]\n\n"
+            "/-- what the SOURCE of the hand-written `__eq__` / `__hash__` / `__ne__` / `__init__` of the\n"
+            "legacy number-like classes says (read with `ast`) -/\n"
+            "def c01OwnEqs : List C01OwnEqInfo := [\n" + ",\n".join(own_to_lean(o) for o in owns) + "\n]\n\n"
+            "/-- the `frozen=` keyword of the `dataclass(…)` call in `expr_dataclass` -/\n"
+            f"def c01FrozenSource : C01FrozenSource := .{frozen_src}\n\n"
             "end PV.Generated\n")
     write_if_changed(os.path.join(LEAN, "PV", "Generated", "Classes.lean"), text)
     return recs
 
 
 if __name__ == "__main__":
+    from harness import c01_classes as _C
+    for o in own_table(_C.all_expression_classes()):
+        print("own", o)
     for r in extract_classes():
         print(r["module"], r["name"], r["kind"], r["fields"], r["eqFields"], r["hashFields"],
               r["frozen"], r["mapperMethod"], r["hashable"], r["ownEq"], r["ownHash"])
